@@ -28,9 +28,12 @@ class Choices:
         if n <= 1:
             return 0
         if self.i < len(self.data):
-            v = self.data[self.i] % n
+            v = self.data[self.i]
             self.i += 1
-            return v
+            if n > 256 and self.i < len(self.data):      # the stream holds bytes: large pools take two of them
+                v = v * 256 + self.data[self.i]
+                self.i += 1
+            return v % n
         return 0
 
     @property
@@ -319,6 +322,14 @@ NUMBER_POOL = ['09e1', '09j', '007J', '0_1j', '1.5j', '.5j', '1e3j', '1', '0', '
                '0B1', '0XF_F', '1_0.0_1']
 STRING_POOL = ["'a\x85b'", "'\x0c'", "'\x1c\x1d'", '"\u2028"', "'\xa0'", "'\ud800'", "'s'", '"d"', "''", '""', "'''t'''", '"""t\nu"""', "b'b'", 'B"b"', "r's\\d'", "R'r'", "u'u'", "rb'x'", "Rb'x'", "bR'x'",
                "'a\\'b'", '"a\\"b"', "'\\n\\x41\\u00e9'", "'\\N{DASH}'", "'é'", "'a\\\nb'", "'#'", "'{x}'"]
+# ... and the product prefix x quote x body (the tokenizer has separate code paths per prefix length, quote kind and for
+# literals continued over a backslash-newline); every member is one STRING token of every grammar version
+_BODIES = ['', 'x', 'a b', '\\n', 'a\\\nb', 'a\\\r\nb', '\\\n', '#', '{x}', "\\'", '\\"', '\\\\']
+STRING_POOL += [p + q + b + q
+                for p in ('', 'b', 'B', 'r', 'R', 'u', 'U', 'rb', 'rB', 'Rb', 'RB', 'br', 'bR', 'Br', 'BR')
+                for q in ("'", '"', "'''", '"""')
+                for b in _BODIES
+                if not (p.lower() in ('r', 'rb', 'br') and b.endswith('\\') and len(b) % 2 == 1 and not b.endswith('\\\\'))]
 STRING_POOL_IN_F = {"'": ['"d"', '""', 'b"b"', 'r"r"', '"é"'], '"': ["'s'", "''", "b'b'", "r'r'", "'é'"]}
 FSTRING_TEXT = ['a', 'a b', ' ', 'é', '{{', '}}', 'x{{y}}', '\\n', '#', 'a.b', '%s', '->']
 FORMAT_TEXT = ['\\t<10', '\\x20>8', '>10', '10', '.2f', 'x', '^', ' ', 'd', '#x', ',']
